@@ -20,7 +20,20 @@ structure Accept (P : Params) (drain : Bool) (arena : Arena) (key uri : Bytes) (
   drained : drain = true → r.term = .eof
   rest : ∃ dg k ct, digestParse key = some dg ∧ detect r.body r.term = some k ∧
       effectiveCT r.ctype k = some ct ∧ wantKind ct = some k ∧
-      decompress P k r.body r.term = some payload ∧ P.hash dg.algo hashed = dg.checksum
+      spool P k r = some payload ∧ P.hash dg.algo hashed = dg.checksum
+
+theorem spool_some {P : Params} {k : Kind} {r : Resp} {payload : Bytes} (h : spool P k r = some payload) :
+    decompress P k r.body r.term = some payload ∧ fits r.disk payload = true := by
+  unfold spool at h
+  split at h
+  · cases h
+  · rename_i p hp
+    split at h
+    · rename_i hf
+      simp only [Option.some.injEq] at h
+      subst h
+      exact ⟨hp, hf⟩
+    · cases h
 
 theorem publish_iff (P : Params) (drain : Bool) (arena : Arena) (key uri : Bytes) (r : Resp)
     (hashed k' payload : Bytes) :
@@ -266,7 +279,8 @@ def ArenaInv (P : Params) (a : Arena) : Prop := ∀ e ∈ a, Verified P e.key e.
 
 theorem accept_verified {P : Params} {arena : Arena} {key uri : Bytes} {r : Resp} {payload : Bytes}
     (h : Accept P true arena key uri r r.body payload) : Verified P key payload := by
-  obtain ⟨dg, k, ct, hd, hk, _, hw, hdec, hh⟩ := h.rest
+  obtain ⟨dg, k, ct, hd, hk, _, hw, hsp, hh⟩ := h.rest
+  have hdec := (spool_some hsp).1
   have ht := h.drained rfl
   rw [ht] at hk hdec
   exact ⟨dg, r.body, k, hd, hh, hk, wantKind_supported hw, hdec⟩
